@@ -20,6 +20,8 @@ PDAG admits an elimination order on which only a one-sided clique test gets stuc
 with exactly that one-directional adjacency test neutralised (class `Neutral`) gives a correct answer.  Everything
 else keeps a generic key (c12:wrong-cpdag, c12:wrong-dag, c12:todag-wrong-extension, ...) and fails the run.
 RV_C12_SCALE=<0..1> shrinks the thorough tier (development only).
+Call sequences on ONE PC / ONE PDAG object and boundary values (falsy / mixed node names, 0-2 node graphs,
+max_cond_vars 0 / exact / float / numpy int, duplicate edges) live in rv/props/C12_seq.py (case kinds seq, pseq).
 """
 import itertools
 import os
